@@ -33,11 +33,12 @@ type MW struct {
 	Fees    map[string][]uint64 // fee set to draw rotations from
 	step    int
 	// NoAmbiguity: honest operations must succeed (fault-free sub-profile)
-	Strict       bool
-	forceAdvMode int
-	forceMeltSat uint64
-	NextPlans    []*FaultPlan // fault plans for the next step's episode
-	Faulted      bool         // a storage error was injected: oracles that need exact knowledge relax
+	Strict          bool
+	forceRaceShared bool // fixed scenarios: the first two racers melt on one shared quote
+	forceAdvMode    int
+	forceMeltSat    uint64
+	NextPlans       []*FaultPlan // fault plans for the next step's episode
+	Faulted         bool         // a storage error was injected: oracles that need exact knowledge relax
 	// Locks: honest swaps sometimes produce P2PK/HTLC locked proofs, spent later with a witness
 	Locks          bool
 	MPP            bool
@@ -119,6 +120,11 @@ func (m *MW) StepFund() {
 		_, r := m.User.Mint(mint, q, outs, "")
 		if !r.OK() && m.Strict {
 			m.W.Book.Violate("C04.honest_rejected", "mint", "honest mint of a paid quote rejected: %v", r)
+		}
+		if !r.OK() && m.Faulted {
+			// an honest client whose request met a storage error tries again with fresh outputs
+			m.User.Mint(mint, q, m.W.NewOutputs(Split(amount), ks.ID), "")
+			m.rc.S.Probe("fund_retry_after_fault")
 		}
 	})
 }
@@ -449,6 +455,11 @@ func (m *MW) StepResolve() {
 						if final != "" && st != final && !(st == "PENDING" && m.W.LN.Cfg.AmbiguousPct > 0) {
 							m.W.Book.Violate("C15.state_wrong", "resolve:"+final+"->"+st, "checkstate after the payment %s reports %s for the melt's input", pay.Truth, st)
 						}
+						if final == "SPENT" && st == "UNSPENT" {
+							// C01's reporting clause: this very request settled the melt (the proof is spent from
+							// now on, a swap of it is refused) and yet it answers UNSPENT
+							m.W.Book.Violate("C01.spent_not_reported", "checkstate-resolving", "checkstate that notices the payment's success marks the melt's input spent but reports it UNSPENT")
+						}
 					}
 				}
 			}
@@ -641,6 +652,9 @@ func (m *MW) StepRace() {
 	kinds := make([]int, n) // 0 swap, 1 melt
 	for i := range kinds {
 		kinds[i] = m.T.Pick("race.kind", 3, 2)
+		if m.forceRaceShared && i < 2 {
+			kinds[i] = 1
+		}
 	}
 	m.rc.Op(fmt.Sprintf("race%v", kinds))
 	ks := m.W.ActiveKeyset(mint)
@@ -651,10 +665,53 @@ func (m *MW) StepRace() {
 	}
 	won := make([]bool, n)
 	locked := make([]*PendingMelt, n)
+	// sometimes all melt racers use ONE quote (overlapping attempts on the same melt quote); all but the
+	// first then present either the same inputs or a forged copy of them
+	var shared *MeltQuote
+	if m.T.Chance("race.samequote", 1, 3) || m.forceRaceShared {
+		amt := (sum - fee) / 2
+		if amt == 0 {
+			amt = 1
+		}
+		inv := m.W.LN.NewExternalInvoice(amt * 1000)
+		m.rc.Quietly(func() { shared, _ = m.User.ReqMeltQuote(mint, inv.Bolt11, 0) })
+		if shared != nil && shared.Amount+shared.Reserve+fee > sum {
+			shared = nil
+		}
+		if shared != nil {
+			m.rc.S.Probe("race_melts_share_one_quote")
+		}
+	}
+	firstMelt := true
 	m.begin()
 	for i := 0; i < n; i++ {
 		i := i
 		name := fmt.Sprintf("%s.%d", m.name("race"), i)
+		if kinds[i] == 1 && shared != nil {
+			forged := !firstMelt && m.T.Chance("race.forgedins", 1, 2)
+			firstMelt = false
+			m.rc.S.Go(name, m.W.Ext, true, func() {
+				a := NewActor(m.W, name)
+				var r *Resp
+				if forged {
+					pj := ins[0].J()
+					pj["C"] = pointHex(mulG(randScalar()))
+					r = a.Post(mint, "/v1/melt/bolt11", map[string]any{"quote": shared.ID, "inputs": []any{pj}})
+				} else {
+					r = a.Melt(mint, shared.ID, ins)
+				}
+				if r.OK() && RespState(r) == "PAID" {
+					won[i] = true
+				} else if r.OK() && RespState(r) == "PENDING" {
+					locked[i] = &PendingMelt{Mint: mint, Q: shared, Ins: ins, Key: mint + "|" + shared.Hash, Known: true}
+				} else if !r.OK() && !forged {
+					if p := m.W.LN.Payments[mint+"|"+shared.Hash]; p != nil && p.Attempts > 0 {
+						locked[i] = &PendingMelt{Mint: mint, Q: shared, Ins: ins, Key: mint + "|" + shared.Hash}
+					}
+				}
+			})
+			continue
+		}
 		if kinds[i] == 0 {
 			outs := m.W.NewOutputs(Split(sum-fee), ks.ID)
 			m.rc.S.Go(name, m.W.Ext, true, func() {
